@@ -274,10 +274,15 @@ def _loopload_one(ctx, R, P, mask, fn):
             srcr = rtasm.a64_reg(i.ops[1])
             lanes[(v, lane)] = (cur[2], cur[3] + (0 if srcr == cur[0] else 4 if srcr == cur[1] else 99))
     want_l = {(16 + k, l): ('x%d' % base, 8 * k + 4 * l) for k in range(8) for l in range(2)}
+    if set(lanes) != set(want_l):
+        # another way of loading the sixteen integers than ldpsw + lane moves: not a form this rule reads
+        raise AnalysisBroken('A64-LOOPLOAD: the floating-point loads of the loop head are not sixteen `ldpsw` / lane-move pairs (%d lanes recognised)' % len(lanes))
     R.check(lanes == want_l, '%s: lanes of f0-f3 / e0-e3' % fn, where, expected='v(16+k).d[l] = sign-extended 32-bit integer at [spAddr1 + 8k + 4l]', found=sorted(lanes.items())[:6])
     conv = sorted(int(i.ops[0][1:].split('.')[0]) for i in fp if i.mnem == 'scvtf')
     R.check(conv == list(range(16, 24)), '%s: conversion of all eight registers' % fn, where, expected='scvtf on v16..v23', found=conv)
     em = sorted((int(i.ops[0][1:].split('.')[0]), i.ops[1], i.ops[2]) for i in fp if i.mnem in ('bif', 'bit', 'bsl', 'and', 'orr') and i.ops[0].startswith('v'))
+    if not em:
+        raise AnalysisBroken('A64-LOOPLOAD: no mask operation on the e registers recognised in the loop head')
     R.check([e[0] for e in em] == [20, 21, 22, 23] and len({e[1:] for e in em}) == 1, '%s: e-register mask' % fn, where, expected='one mask operation with the same two mask registers on v20..v23 only', found=em)
 
 
